@@ -27,6 +27,8 @@ def run(ck: Check, only=None):
             continue
         gens = [strings_upto(big, 3 if quick else 4), strings_upto(small, 5 if quick else 6, 4 if quick else 5)]
         rnd = []
+        from boundaries import mined_texts
+        big = list(big) + mined_texts(24)       # texts a changed tree special-cases (nothing on the unchanged tree)
         for _ in range(1500 if quick else 20000):
             n = r.randint(8, 400 if r.random() < 0.2 else 40)
             rnd.append(b"".join(r.choice(big) for _ in range(n)))
